@@ -80,8 +80,16 @@ func c13Draw(d *caseDrawer, r *rng.R) *PCase {
 		for i := range types {
 			types[i] = gram.StdPalette[r.Intn(len(gram.StdPalette))]
 		}
-		h := pc.G.TypedHarness(types, r.Chance(1, 3))
-		pc.Files = map[string]string{"g.lox": pc.Lox, "harness.go": h}
+		pc.Files = map[string]string{"g.lox": pc.Lox}
+		if r.Chance(1, 2) {
+			// the user's package in two files, types spelled two ways
+			for fn, src := range pc.G.TypedHarnessFiles(types, r.Chance(1, 3)) {
+				pc.Files[fn] = src
+			}
+			pc.Origin += "+two-go-files"
+		} else {
+			pc.Files["harness.go"] = pc.G.TypedHarness(types, r.Chance(1, 3))
+		}
 		pc.Intern, pc.Stub = "", ""
 		pc.Origin += "+imported-types"
 		return pc
